@@ -65,7 +65,7 @@ HASH_ITER_CALL = re.compile(
 
 
 def check(run):
-    for cfg in ("A", "B"):
+    for cfg in run.cfgs("A", "B"):
         F = run.facts(cfg)
         run.guard("C09.1.ordered-views", cfg, lambda: rule_views(run, F, cfg))
         run.guard("C09.2.order-taint", cfg, lambda: rule_taint(run, F, cfg))
